@@ -28,6 +28,7 @@ type Program struct {
 	Spec    *SpecDB
 	built   map[*ssa.Package]bool
 	typeIDs map[string]int
+	typeByID map[int]types.Type
 	// every trusted item actually used in this run
 	Trusted map[string]bool
 }
@@ -57,7 +58,7 @@ func Load(repo string, patterns []string) (*Program, error) {
 	}
 	prog, _ := ssautil.AllPackages(pkgs, ssa.GlobalDebug)
 	p := &Program{Repo: repo, Pkgs: pkgs, SSA: prog, ByPath: map[string]*packages.Package{}, ByName: map[string][]*packages.Package{},
-		built: map[*ssa.Package]bool{}, typeIDs: map[string]int{}, Trusted: map[string]bool{}, Spec: NewSpecDB()}
+		built: map[*ssa.Package]bool{}, typeIDs: map[string]int{}, typeByID: map[int]types.Type{}, Trusted: map[string]bool{}, Spec: NewSpecDB()}
 	packages.Visit(pkgs, nil, func(pk *packages.Package) {
 		p.ByPath[pk.PkgPath] = pk
 		p.ByName[pk.Name] = append(p.ByName[pk.Name], pk)
@@ -338,6 +339,7 @@ func (p *Program) typeID(t types.Type) int {
 	}
 	id := len(p.typeIDs) + 1
 	p.typeIDs[s] = id
+	p.typeByID[id] = t
 	return id
 }
 
